@@ -112,6 +112,11 @@ E01 = dict(name='end-to-end: real Pipeline.Run + BurndownAnalysis vs line-lifeti
                 'a third each: no hibernation / in memory / on disk (distance 1-3, thresholds 0,3,10,1000); checked: global, per-file, '
                 'per-developer matrices, ownership, interaction matrix == ground truth; result with hibernation == without, no temp '
                 'file left; binary round trip identity; non-trivial = history ends in a merge-containing DAG')
+E01V = dict(name='end-to-end: DAG histories that delete and re-create files (known finding stream)', probe='e01', fam=None,
+            quick=600, thorough=60000, extra=['14', 'volatile'], nontrivial=nt_any,
+            rule='as the ground-truth stream, plus 1-2 extra files that may lose all their lines (file deleted) and come back; '
+                 'failures are accepted only in the decidable class "history with a merge in which a file present in a commit is '
+                 'absent in one of its children" (known finding C01-file-deleted-in-dag)')
 E01L = dict(name='end-to-end: linear histories with arbitrary edits (row sums, non-negativity)', probe='e01l', fam=None,
             quick=4000, thorough=400000, nontrivial=nt_any,
             rule='3-14 commits, 1-3 edits each over 3 paths (nested dir): repeated lines, deletions, renames, binary flips, '
@@ -136,7 +141,7 @@ PLANR = dict(name='prepareRunPlan validated (random graphs up to 60 commits)', p
                   'distance 0..4; non-trivial = plan has a fork and a merge')
 
 PROPS = {
-    'C01': dict(corr=[GS, RT, BD, DAG, E01, E01L]),
+    'C01': dict(corr=[GS, RT, BD, DAG, E01, E01L, E01V]),
     'C02': dict(level='translation_validation', corr=[PLAN4, PLAN5, PLAN6, PLANR]),
     'C03': dict(corr=[FU]),
     'C04': dict(corr=[GC, PLAN5, PLANR]),
